@@ -14,11 +14,6 @@ def key(c):
     return json.dumps(c, sort_keys=True)
 
 
-def has_int(c):
-    s = json.dumps(c)
-    return '"k": "num"' in s
-
-
 def run(rep):
     quick = rep.tier == "quick"
     # 1. model checking: the array store as a state machine (invariants), then the laws on every enumerated case
@@ -27,12 +22,14 @@ def run(rep):
     res = tlc.run(rep.pid, "C17", ENUM_CFG, env={"TIER": rep.tier}, timeout=2400, tag="enum", heap="12g")
     rep.add_tlc("C17.Enum+Laws", res)
     seen, calls, scripts = set(), [], []
+    import hashlib
     for c in res.records:
-        k = key(c)
+        k = hashlib.md5(key(c).encode()).digest()
         if k in seen:
             continue
         seen.add(k)
         (calls if c["ty"] == "call" else scripts).append(c)
+    res.records, res.stdout, seen = [], "", None          # the enumeration output is large: free it
     if len(calls) < 5000 or len(scripts) < 500:
         raise Machinery("enumeration produced only %d calls, %d scripts" % (len(calls), len(scripts)))
     rng = random.Random(rep.seed)
@@ -43,14 +40,14 @@ def run(rep):
         allc.append(c)
     # the same cases with integer-valued numbers held as Python floats (representation mix): all plain calls, a sample of the rest
     for c in calls + scripts:
-        if c["ty"] == "call" and c["cb"]["kind"] != "na" and rng.random() > 0.1:
+        if rng.random() > (0.1 if c["ty"] == "call" and c["cb"]["kind"] != "na" else (1.0 if quick else 0.3)):
             continue
         d = dict(c)
         d["id"] = len(allc)
         d["intrep"] = False
         allc.append(d)
-    hist = gen_histories(rng, 500 if quick else 20000)
-    tah = gen_ta_histories(rng, 300 if quick else 6000)
+    hist = gen_histories(rng, 500 if quick else 8000)
+    tah = gen_ta_histories(rng, 300 if quick else 3000)
     for h in hist + tah:
         h["id"] = len(allc)
         allc.append(h)
@@ -60,64 +57,13 @@ def run(rep):
                        "cases": len(scripts), "complete": True})
     rep.spaces.append({"space": "seeded random histories (arrays: <= 20 calls on three shared arrays; typed arrays: <= 20 events on two buffers)",
                        "cases": len(hist) + len(tah), "complete": False})
-    # 2. replay into the engine
-    t0 = time.time()
-    results = engine.run_cases(rep.pid, allc, driver=DRIVER)
-    # a wall-clock watchdog hit on a loaded machine is not an observation: run those cases once more, alone
-    def hung(r):
-        obs = r["obs"] if isinstance(r["obs"], list) else [r["obs"]]
-        return any(o["out"]["o"] == "hang" and "wall" in o["out"].get("msg", "") for o in obs)
-    again = [r["id"] for r in results if hung(r)]
-    if again:
-        byid0 = {c["id"]: c for c in allc}
-        redo = engine.run_cases(rep.pid, [byid0[i] for i in again], driver=DRIVER, procs=1, tag="eng_retry")
-        fixed = {r["id"]: r for r in redo}
-        results = [fixed.get(r["id"], r) for r in results]
-        rep.notes["watchdog_retries"] = len(again)
-    rep.notes["engine_wall_s"] = round(time.time() - t0, 1)
-    byid = {c["id"]: c for c in allc}
-    crecs, trecs = [], []
-    for r in results:
-        c = byid[r["id"]]
-        if c["ty"] == "call":
-            crecs.append({"id": c["id"], "ty": "call", "store": c["store"], "m": c["m"], "r": c["r"], "a": c["a"], "cb": c["cb"],
-                          "obs": r["obs"]})
-        else:
-            evs = []
-            for ev, ob in zip(c["evs"], r["obs"]):
-                e = dict(ev)
-                e["obs"] = ob
-                evs.append(e)
-            trecs.append({"id": c["id"], "ty": c["ty"], "store": c.get("store", []), "evs": evs})
-    if len(crecs) + len(trecs) != len(allc):
-        raise Machinery("engine returned %d results for %d cases" % (len(results), len(allc)))
-    # 3. judge in TLC
-    verdicts, st, tr, wall = tlc.judge(rep.pid, "C17", crecs, JUDGE_CFG, tag="judge_calls")
-    rep.add_judge(len(crecs), st, tr)
-    tverd, st2, tr2, wall2 = tlc.judge(rep.pid, "C17", trecs, TRACE_CFG, tag="judge_traces")
-    rep.add_judge(len(trecs), st2, tr2)
-    rep.notes["judge_wall_s"] = [round(wall, 1), round(wall2, 1)]
-    rep.evaluations = len(crecs) + sum(len(t["evs"]) for t in trecs)
-    got = {v["id"]: v for v in verdicts + tverd}
-    if len(got) != len(allc):
-        raise Machinery("judge returned %d verdicts for %d records" % (len(got), len(allc)))
-    obs = {r["id"]: r for r in crecs + trecs}
-    for i, v in sorted(got.items()):
-        c = byid[i]
-        if v["v"] == "pass":
-            if len(rep.samples) < 5 and i % 4999 == 0:
-                rep.sample({"case": show_case(c), "verdict": "pass"})
-            continue
-        if v["v"] == "unsupported" or v.get("why") == "unsupported":
-            raise Machinery("judge called an enumerated case unsupported: %s" % show_case(c))
-        devs = [v["dev"]] if "dev" in v else sorted(v.get("devs", []))
-        detail = {"case": show_case(c), "why": v.get("why", ""), "at": v.get("at"), "expected": v.get("exp"),
-                  "actual": actual_of(c, obs[i], v), "m": c.get("m", c["ty"]), "raw": c if c["ty"] == "call" else None}
-        if v["v"] == "known":
-            for d in devs:
-                rep.mismatch(show_case(c), detail, dev=d)
-        else:
-            rep.mismatch(show_case(c), detail, dev="")
+    # 2./3. replay into the engine and judge in TLC, batch by batch (bounded memory)
+    BATCH = 60000
+    rep.notes["engine_wall_s"] = 0.0
+    rep.notes["judge_wall_s"] = [0.0, 0.0]
+    rep.evaluations = 0
+    for lo in range(0, len(allc), BATCH):
+        process(rep, allc[lo:lo + BATCH], lo // BATCH)
     rep.exhaustive = True
     # methods the engine offers that the specification does not cover yet (reported, not judged)
     names = ["at", "fill", "keys", "values", "entries", "flat", "flatMap", "findLast", "findLastIndex", "copyWithin", "toSorted", "toReversed",
@@ -139,6 +85,65 @@ def run(rep):
                         "documented stricter mode: dense arrays, append at length, an error further out (class not judged)",
                         "map over an array shortened by its callback: trailing vanished indexes may be dropped or read as undefined",
                         "sort with an inconsistent comparator: any permutation with undefined last"]
+
+
+def process(rep, batch, k):
+    t0 = time.time()
+    results = engine.run_cases(rep.pid, batch, driver=DRIVER, tag="eng")
+
+    # a wall-clock watchdog hit on a loaded machine is not an observation: run those cases once more, alone
+    def hung(r):
+        obs = r["obs"] if isinstance(r["obs"], list) else [r["obs"]]
+        return any(o["out"]["o"] == "hang" and "wall" in o["out"].get("msg", "") for o in obs)
+    byid = {c["id"]: c for c in batch}
+    again = [r["id"] for r in results if hung(r)]
+    if again:
+        redo = engine.run_cases(rep.pid, [byid[i] for i in again], driver=DRIVER, procs=1, tag="eng_retry")
+        fixed = {r["id"]: r for r in redo}
+        results = [fixed.get(r["id"], r) for r in results]
+        rep.notes["watchdog_retries"] = rep.notes.get("watchdog_retries", 0) + len(again)
+    rep.notes["engine_wall_s"] = round(rep.notes["engine_wall_s"] + time.time() - t0, 1)
+    crecs, trecs = [], []
+    for r in results:
+        c = byid[r["id"]]
+        if c["ty"] == "call":
+            crecs.append({"id": c["id"], "ty": "call", "store": c["store"], "m": c["m"], "r": c["r"], "a": c["a"], "cb": c["cb"],
+                          "obs": r["obs"]})
+        else:
+            evs = []
+            for ev, ob in zip(c["evs"], r["obs"]):
+                e = dict(ev)
+                e["obs"] = ob
+                evs.append(e)
+            trecs.append({"id": c["id"], "ty": c["ty"], "store": c.get("store", []), "evs": evs})
+    if len(crecs) + len(trecs) != len(batch):
+        raise Machinery("engine returned %d results for %d cases" % (len(results), len(batch)))
+    verdicts, st, tr, wall = tlc.judge(rep.pid, "C17", crecs, JUDGE_CFG, tag="judge_calls")
+    rep.add_judge(len(crecs), st, tr)
+    tverd, st2, tr2, wall2 = tlc.judge(rep.pid, "C17", trecs, TRACE_CFG, tag="judge_traces")
+    rep.add_judge(len(trecs), st2, tr2)
+    rep.notes["judge_wall_s"] = [round(rep.notes["judge_wall_s"][0] + wall, 1), round(rep.notes["judge_wall_s"][1] + wall2, 1)]
+    rep.evaluations += len(crecs) + sum(len(t["evs"]) for t in trecs)
+    got = {v["id"]: v for v in verdicts + tverd}
+    if len(got) != len(batch):
+        raise Machinery("judge returned %d verdicts for %d records" % (len(got), len(batch)))
+    obs = {r["id"]: r for r in crecs + trecs}
+    for i, v in sorted(got.items()):
+        c = byid[i]
+        if v["v"] == "pass":
+            if len(rep.samples) < 5 and i % 4999 == 0:
+                rep.sample({"case": show_case(c), "verdict": "pass"})
+            continue
+        if v["v"] == "unsupported" or v.get("why") == "unsupported":
+            raise Machinery("judge called an enumerated case unsupported: %s" % show_case(c))
+        devs = [v["dev"]] if "dev" in v else sorted(v.get("devs", []))
+        detail = {"case": show_case(c), "why": v.get("why", ""), "at": v.get("at"), "expected": v.get("exp"),
+                  "actual": actual_of(c, obs[i], v), "m": c.get("m", c["ty"]), "raw": c if c["ty"] == "call" else None}
+        if v["v"] == "known":
+            for d in devs:
+                rep.mismatch(show_case(c), detail, dev=d)
+        else:
+            rep.mismatch(show_case(c), detail, dev="")
 
 
 def actual_of(c, rec, v):
